@@ -132,7 +132,8 @@ class ILock:
 
 
 class Controller:
-    def __init__(self, sc, policy):
+    def __init__(self, sc, policy, opcode_funcs=()):
+        self.opcode_funcs = set(opcode_funcs)   # step these functions bytecode by bytecode
         self.sc = sc
         self.policy = policy
         self.buf = make_buffer(sc)
@@ -164,8 +165,18 @@ class Controller:
                 self.park(me)
             return local
 
+        def fine(frame, event, arg):
+            if event == 'opcode':
+                self.park(me)
+            return fine
+
         def glob(frame, event, arg):
-            return local if frame.f_code.co_filename == self.file else None
+            if frame.f_code.co_filename != self.file:
+                return None
+            if frame.f_code.co_name in self.opcode_funcs:
+                frame.f_trace_opcodes = True
+                return fine
+            return local
         return glob
 
     def _worker(self, me, ops):
@@ -235,11 +246,11 @@ def replay_policy(schedule):
     return policy
 
 
-def run_schedule(sc, schedule):
-    return Controller(sc, replay_policy(schedule)).run()
+def run_schedule(sc, schedule, opcode_funcs=()):
+    return Controller(sc, replay_policy(schedule), opcode_funcs).run()
 
 
-def explore(sc, max_preempt=3, budget_s=30.0, max_runs=None):
+def explore(sc, max_preempt=3, budget_s=30.0, max_runs=None, opcode_funcs=()):
     """-> dict(runs, distinct, torn) ; torn = None or dict(scenario, schedule, outcome)."""
     t0 = time.time()
     serial = serial_outcomes(sc)
@@ -248,7 +259,7 @@ def explore(sc, max_preempt=3, budget_s=30.0, max_runs=None):
 
     def one(first, pts):
         nonlocal runs
-        out, tr = Controller(sc, preempt_policy(first, pts)).run()
+        out, tr = Controller(sc, preempt_policy(first, pts), opcode_funcs).run()
         runs += 1
         fresh = tr not in seen
         seen.add(tr)
@@ -259,7 +270,7 @@ def explore(sc, max_preempt=3, budget_s=30.0, max_runs=None):
         out, tr, _ = one(first, ())
         lengths[first] = len(tr)
         if out not in serial:
-            return {'runs': runs, 'distinct': len(seen), 'torn': _torn(sc, tr, out, serial)}
+            return {'runs': runs, 'distinct': len(seen), 'torn': _torn(sc, tr, out, serial, opcode_funcs)}
     for k in range(1, max_preempt + 1):
         for first in 'WR':
             n = lengths[first] + 2
@@ -268,12 +279,12 @@ def explore(sc, max_preempt=3, budget_s=30.0, max_runs=None):
                     return {'runs': runs, 'distinct': len(seen), 'torn': None, 'truncated': True}
                 out, tr, fresh = one(first, pts)
                 if out not in serial:
-                    return {'runs': runs, 'distinct': len(seen), 'torn': _torn(sc, tr, out, serial)}
+                    return {'runs': runs, 'distinct': len(seen), 'torn': _torn(sc, tr, out, serial, opcode_funcs)}
     return {'runs': runs, 'distinct': len(seen), 'torn': None, 'truncated': False}
 
 
-def _torn(sc, tr, out, serial):
-    return {'scenario': sc, 'schedule': tr,
+def _torn(sc, tr, out, serial, opcode_funcs=()):
+    return {'scenario': sc, 'schedule': tr, 'opcode_funcs': sorted(opcode_funcs),
             'observed': {'writer_results': out[0], 'reader_results': out[1], 'final_state': out[2]},
             'serial_outcomes': [{'order': m, 'writer_results': k[0], 'reader_results': k[1], 'final_state': k[2]}
                                 for k, m in serial.items()]}
@@ -302,8 +313,11 @@ def scenarios(rng, count):
         else:
             sc = {'writer': [rand_writer(rng) for _ in range(rng.randint(1, 2))],
                   'reader': [rand_reader(rng) for _ in range(rng.randint(1, 2))]}
-        sc.update({'fs': 10.0, 'size': 0.8, 'prefill': [rng.choice([5, 8, 11])],
-                   'n_channels': rng.choice([None, None, 2])})
+        pre = rng.choice([5, 8, 11])
+        nch = rng.choice([None, None, 2])
+        if i < len(fixed):
+            pre, nch = 5, None          # partly filled: `_ilb` still moves
+        sc.update({'fs': 10.0, 'size': 0.8, 'prefill': [pre], 'n_channels': nch})
         out.append(sc)
     return out
 
